@@ -1239,8 +1239,24 @@ func (n *VerifNode) Shutdown() {
 			n.snapGate2, n.snapParked = nil, nil
 		}
 		n.snapReq = nil
-		n.releaseRole(n.cur)
-		r.release()
+		// stateLoop's way out: release the role, then Raft.release (which waits for a snapshot in
+		// flight). If that never returns the node cannot shut down: reported as class "deadlock"
+		done := make(chan struct{})
+		var pv interface{}
+		go func() {
+			defer close(done)
+			defer func() { pv = recover() }()
+			n.releaseRole(n.cur)
+			r.release()
+		}()
+		select {
+		case <-done:
+			if pv != nil {
+				panic(pv)
+			}
+		case <-time.After(verifFSMWatchdog):
+			n.setPanic("deadlock.shutdown")
+		}
 	})
 	n.Dead = true
 }
